@@ -262,6 +262,7 @@ CAL_RULE = ("block-hash correspondence: for each of the 9 calendar configuration
 class _C01(CalSpec):
     pid = "C01"
     lean_module = "Starcal.Props.C01"
+    src_ties = ["Starcal.SrcTie.Cal"]
     kinds = ("jd", "ym")
     expected = "ToJd(JdTo(jd)) = jd for every day number, JdTo(ToJd(d)) = d for every well-formed date, all 9 configurations"
     rule = CAL_RULE
@@ -273,6 +274,7 @@ register(_C01())
 class _C02(CalSpec):
     pid = "C02"
     lean_module = "Starcal.Props.C02"
+    src_ties = ["Starcal.SrcTie.Cal"]
     kinds = ("jd",)
     expected = "JdTo(jd+1) is the calendar successor of JdTo(jd) under the library's GetMonthLen; every produced date is well-formed"
     rule = CAL_RULE
@@ -284,6 +286,7 @@ register(_C02())
 class _C03(CalSpec):
     pid = "C03"
     lean_module = "Starcal.Props.C03"
+    src_ties = ["Starcal.SrcTie.All"]
     kinds = ("jd", "ym")
     expected = "JdTo(jd) equals the date counted from the published anchor with the published leap rule and month lengths (table lengths inside the hijri table window)"
     rule = CAL_RULE
@@ -295,6 +298,7 @@ register(_C03())
 class _C07(CalSpec):
     pid = "C07"
     lean_module = "Starcal.Props.C07"
+    src_ties = ["Starcal.SrcTie.All"]
     kinds = ("ym",)
     expected = "month lengths equal gaps between month starts, sum to the year length, leap iff long year"
     rule = CAL_RULE
